@@ -179,3 +179,23 @@ package ja4
 //@ -- ASSUMED (textbook fact about sorted sequences, not a property of fingerproxy; an inductive SMT proof was
 //@ -- attempted and did not go through within the time box): two sorted lists with equal multiplicities are equal.
 //@ axiom [sorted-same-counts-equal] forall a seq[uint16], b seq[uint16] :: len(a) == len(b) && sorted16(a) && sorted16(b) && (forall v uint16 :: cnt16(a, v, len(a)) == cnt16(b, v, len(b))) ==> a == b
+
+//@ -- C02, entry point: the fingerprint is computed from the spec that utls parses out of exactly the captured record
+//@ -- (blunt mimicry allowed so unknown extensions are kept, no real-PSK handling), for the protocol letter given.
+//@ -- utls' parser itself is assumed: a successful FromRaw yields well-formed extensions.
+//@ ghost var ja4Raw seq[byte]
+//@ ghost var ja4Mimic bool
+//@ ghost var ja4PSK bool
+//@ ghost var ja4Proto byte
+//@ func utls.(*ClientHelloSpec).FromRaw :: chs, raw, ctrlFlags -> err
+//@   trusted
+//@   assigns chs.all, ja4Raw, ja4Mimic, ja4PSK
+//@   ensures ja4Raw == raw && (ja4Mimic <==> (len(ctrlFlags) > 0 && ctrlFlags[0])) && (ja4PSK <==> (len(ctrlFlags) > 1 && ctrlFlags[1]))
+//@   ensures err == nil ==> extsWellFormed(chs)
+//@ func (*JA4Fingerprint).UnmarshalBytes :: j, clientHelloRecord, protocol -> err
+//@   props C02,C10
+//@   requires j != nil
+//@   assigns j.all, utls.UtlsPaddingExtension.WillPad, ja4Raw, ja4Mimic, ja4PSK, ja4Proto
+//@   ghostset ja4Proto = protocol
+//@   ensures [C02:parsed-from-exactly-the-given-record-keeping-unknown-extensions] ja4Raw == clientHelloRecord && ja4Mimic && !ja4PSK
+//@   ensures [C02:protocol-letter-taken-from-the-caller] ja4Proto == protocol && (err == nil ==> j.Protocol == protocol)
